@@ -68,6 +68,8 @@ def builder_sites(cx):
             else:
                 position = 'type'
             shape = cx.shape_of_handler(fn) if fn.name == 'trait_meta_handler' else 'helper'
+            if id(fn) in getattr(cx.crate, 'fully_inlined', ()):
+                continue        # analysed in its callers, with their context
             out.append(BuilderSite(fn, ev, struct, trait, level, ev.method, position, shape))
     return out
 
@@ -102,6 +104,8 @@ def expected(cx, facts, site, atoms):
         return is_atoms(lambda v: list(v) == [('educed', X, False)])
 
     type_expr_some = any(a[0] == 'some' and a[2] is True and isinstance(a[1], tuple) and a[1][0] == 'field' and a[1][2] == 'expression' for a in atoms)
+    # fields of a variant that is not the default variant may carry no Default attribute at all
+    variant_not_default = T == 'Default' and any(a[0] == 'truth' and a[2] is False and isinstance(a[1], tuple) and a[1][0] == 'field' and a[1][2] == 'flag' for a in atoms)
     if pos == 'type':
         e = {'flag': True}
         if T == 'Debug':
@@ -150,7 +154,7 @@ def expected(cx, facts, site, atoms):
             return {'method': educed_not('Copy')}
         return {'method': True}
     if T == 'Default':
-        if site.shape == 'helper' or type_expr_some:
+        if site.shape == 'helper' or type_expr_some or variant_not_default:
             return {'flag': False, 'expression': False}
         if union:
             return {'flag': True, 'expression': True}
